@@ -16,8 +16,10 @@
 (*           of IndexEditWorld) in a random environment                    *)
 (* env is the part of the environment the design looks at only through sfb *)
 (* (source kind, referrers API on source / target, target on the source    *)
-(* host) or not at all (fault: the n-th state changing request of command  *)
-(* k is refused with 403; the design's expectation is then not compared).  *)
+(* host) or not at all (fault: the n-th state changing request - kind       *)
+(* "write" - or the n-th blob read - kind "read" - that command k sends to  *)
+(* the target registry is refused with 403; the design's expectation is     *)
+(* then not compared).                                                      *)
 (* Random draws are taken in one step into `draws` (explicit values).      *)
 (* Mirrors no code; adds only history to IndexEdit.                        *)
 (***************************************************************************)
@@ -61,8 +63,9 @@ AlphaSeq == SetToSeq(AlphaAll)
 Draw(z) ==
   [n |-> W(<<1, 2, 2, 3, 3, 4>>),
    cmds |-> IF GenMode = "alpha" THEN TLCEval([i \in 1..4 |-> W(AlphaSeq)]) ELSE TLCEval([i \in 1..4 |-> DrawCmd(z + i)]),
-   fault |-> IF W(<<0, 0, 0, 0, 0, 1>>) = 1 THEN [cmd |-> W(<<1, 1, 2, 2, 3>>), at |-> W(<<1, 1, 2, 2, 3, 4, 6, 9>>)]
-             ELSE [cmd |-> 0, at |-> 0]]
+   fault |-> IF W(<<0, 0, 0, 0, 0, 1>>) = 1
+             THEN [cmd |-> W(<<1, 1, 2, 2, 3>>), at |-> W(<<1, 1, 2, 2, 3, 4, 6, 9>>), kind |-> W(<<"write", "write", "read">>)]
+             ELSE [cmd |-> 0, at |-> 0, kind |-> "write"]]
 
 \* when the target is source repository S1: a source that cannot be copied completely would be a
 \* target that is broken from the start, and a digest S1 does not hold may appear there by a copy
@@ -87,7 +90,7 @@ GDraw == /\ ~drawn /\ GenMode # "each"
 \* "each": the sequences <<c>> and <<create, c>> for every c of the alphabet
 GDrawEach == /\ ~drawn /\ GenMode = "each"
              /\ \E c \in AlphaAll, p \in {0, 1} :
-                  draws' = [n |-> 1 + p, fault |-> [cmd |-> 0, at |-> 0],
+                  draws' = [n |-> 1 + p, fault |-> [cmd |-> 0, at |-> 0, kind |-> "write"],
                             cmds |-> IF p = 0 THEN <<c>> ELSE <<CHOOSE f \in EachFirst : TRUE, c>>]
              /\ drawn' = TRUE
              /\ UNCHANGED <<vars, ncmd, genv, hist, iname>>
